@@ -713,6 +713,12 @@ fn main() {
     if let Some(path) = &args.replay {
         let v: serde_json::Value = serde_json::from_str(&std::fs::read_to_string(path).unwrap()).unwrap();
         let inp = &v["input"];
+        if !inp["ops"].is_array() {
+            // a replay of the other C28 stream (idm-lock): nothing to do here
+            ctx.rep.write(&args.out);
+            println!("c28 replay: not a softlock replay");
+            return;
+        }
         let ops = inp["ops"].as_array().unwrap().iter().map(|x| Op::parse(x.as_str().unwrap())).collect();
         ctx.push(Case { stream: "replay", policy: inp["policy"].as_str().unwrap().to_string(), ops, pre: 0 });
         ctx.flush();
